@@ -1,13 +1,13 @@
 CONSTANT MaxExt = 2
-CONSTANT MaxSG = 1
-CONSTANT MaxUx = 1
+CONSTANT MaxSG = 0
+CONSTANT MaxUx = 0
 CONSTANT MaxMeta = 1
-CONSTANT MaxFeed = 2
+CONSTANT MaxFeed = 3
 CONSTANT MaxCache = 1
 CONSTANT MaxGet = 1
-CONSTANT Deletes = TRUE
-CONSTANT Split = FALSE
-CONSTANT Conflicts = FALSE
+CONSTANT Deletes = FALSE
+CONSTANT Split = TRUE
+CONSTANT Conflicts = TRUE
 CONSTANT MaxSteps = 5
 SPECIFICATION Spec
 INVARIANT BehaviourExport
